@@ -143,7 +143,7 @@ ADJ = [  # (sde_type, noise_type, method, adjoint_method, levy)
     ("stratonovich", "general", "log_ode", "midpoint", "foster"),
     ("stratonovich", "diagonal", "euler_heun", "heun", "davie"),
     ("ito", "diagonal", "milstein", "euler", "space-time"),
-    ("stratonovich", "general", "midpoint", "reversible_heun", "none"),
+    ("stratonovich", "general", "midpoint", "heun", "none"),
     ("stratonovich", "diagonal", "heun", "milstein", "none"),
 ]
 
